@@ -88,6 +88,11 @@ package promapi
 // the callee's precondition is an obligation at the call site.
 //@ func Prometheus.RangeQuery [C13]
 //@   at call sliceRange assert step > 0 && step <= 4*time.Hour ==> queryStep % step == 0
+// C14: the single-flight key of a range query is a function of the question asked - the expression and the range
+// description params.String() (lookback/step for a relative range) - not of the moment it is asked
+//@   ghost ps string
+//@   after call RangeQueryTimes.String set ps = result0
+//@   at call partitionLocker.lock assert [C14] arg1 == sprintf("%s/%s/%s", APIPathQueryRange, expr, ps)
 
 // ---------------------------------------------------------------------------------------------
 // C15: failover happens on unavailability only.
@@ -239,10 +244,15 @@ package promapi
 
 // Upstream request methods: used through their (empty) contracts at call sites so that the failover proofs stay
 // modular; their bodies (worker queue, cache, HTTP) are not part of C15.
-//@ func Prometheus.Query
-//@ func Prometheus.Config
-//@ func Prometheus.Flags
-//@ func Prometheus.Metadata
+// C14: the single-flight key of the other requests is the API path plus the whole question
+//@ func Prometheus.Query [C14]
+//@   at call partitionLocker.lock assert arg1 == APIPathQuery + expr
+//@ func Prometheus.Config [C14]
+//@   at call partitionLocker.lock assert arg1 == APIPathConfig
+//@ func Prometheus.Flags [C14]
+//@   at call partitionLocker.lock assert arg1 == APIPathFlags
+//@ func Prometheus.Metadata [C14]
+//@   at call partitionLocker.lock assert arg1 == APIPathMetadata + metric
 
 //@ spec func tooExpensive(e error) bool = errorsAs(e, APIError) && errorsAsVal(e, APIError).ErrorType == v1.ErrExec &&
 //@      (hasPrefix(errorsAsVal(e, APIError).Err, "query processing would load too many samples into memory in ") ||
